@@ -221,7 +221,14 @@ def check(rep, an, tier):
                           msg=f"a fit with explicit targets assigns self.{sorted(written)}: it changes the answer to later queries "
                               f"(registered targets / last fit are overwritten)")
             R.rule_purity(rep, res, entry)
+            R.rule_no_global_state(rep, res, entry)
             global_rng(rep, res, entry)
+    # the other models of `fit` share the process with every other estimator: no state outside the object (module globals, mutable defaults)
+    for model in ("poisson", "excitation"):
+        kw = dict(model=const(model), batch_size=bsv, verbose=const(0), B=B_())
+        res = an.run(f"{EST}.fit", kws=kw, self_fields=dict(fields), config=f"model={model}")
+        R.rule_no_global_state(rep, res, "ReceptorEstimator.fit")
+        R.rule_purity(rep, res, "ReceptorEstimator.fit")
     # __init__
     res = an.run(f"{EST}.__init__", kws=dict(filters=arr("filters", S("F", "D"), {"phi": 1}), domain=arr("domain", S("D"), {"lam": 1}, isnum=False),
                                             filters_uncertainty=none(), w=num("w", U_W), labels=none(), K=num("K", U_K), baseline=num("baseline", U_CAPTURE),
@@ -327,7 +334,7 @@ def register_bounds_rule(rep, an, fields=None):
         label = f"lb={'given' if lbg else None},ub={'given' if ubg else None}"
         res = an.run(f"{EST}.register_bounds", kws=kw, self_fields=dict(fields), config=label)
         entry = "ReceptorEstimator.register_bounds"
-        stores_ = res.events("self_store")
+        stores_ = [ev for ev in res.events("self_store") if not ev.d.get("noop")]
         resets = {a_ for a_ in {ev.d["attr"] for ev in stores_} if a_.startswith("_") and a_ not in fields
                   and all(not ev.d["val"].flat().data for ev in stores_ if ev.d["attr"] == a_)}       # cache attributes set to a constant
         written = {ev.d["attr"] for ev in stores_} - resets
@@ -335,7 +342,7 @@ def register_bounds_rule(rep, an, fields=None):
         rep.check("R-EFFECT", "register_bounds writes a bound iff it is given", written == want, where=res.fn.loc(),
                   construct=f"write set of register_bounds [{label}]", entry=entry, config=label,
                   msg=f"writes {sorted(written)} but only {sorted(want)} was given: the bound that was not passed is silently reset")
-        for ev in res.events("self_store"):
+        for ev in stores_:
             if ev.d["attr"] in resets:
                 continue
             v = ev.d["val"].flat()
